@@ -735,6 +735,112 @@ fn mode_c03(w: &mut CaseWriter, args: &Args, rng: &mut Rng) {
             }
         }
     }
+    // premise (B) of the property: every replica has applied a gap-free prefix of every origin's
+    // operations (each origin's operations in stamp order; any interleaving of the origins, any
+    // sources, repeats allowed); the history spans several forgiveness periods.  The laws must
+    // hold although cut-offs now refuse and drop things.
+    let prefix_replica = |h: &[Op], cut: &[usize], order: u32, dup: bool| -> Vec<Op> {
+        let mut per: Vec<Vec<Op>> = Vec::new();
+        for node in [1u64, 2, 3] {
+            let mut v: Vec<Op> = h.iter().filter(|o| node_of(o.t) == node).cloned().collect();
+            v.sort_by_key(|o| o.t);
+            per.push(v);
+        }
+        let lens: Vec<usize> = per.iter().enumerate().map(|(i, v)| v.len().min(cut[i % cut.len()])).collect();
+        let mut out: Vec<Op> = Vec::new();
+        match order % 3 {
+            0 => for (i, v) in per.iter().enumerate() { out.extend(v[..lens[i]].iter().cloned()); },
+            1 => for (i, v) in per.iter().enumerate().rev() { out.extend(v[..lens[i]].iter().cloned()); },
+            _ => {
+                let mut pos = vec![0usize; per.len()];
+                loop {
+                    let mut any = false;
+                    for i in 0..per.len() {
+                        if pos[i] < lens[i] { out.push(per[i][pos[i]]); pos[i] += 1; any = true; }
+                    }
+                    if !any { break; }
+                }
+            },
+        }
+        // sources: alternate by position, shifted by the order variant
+        for (i, o) in out.iter_mut().enumerate() { o.src = (i + order as usize) % 2; }
+        if dup && !out.is_empty() {
+            // a repeated delivery of an already applied operation through the other source
+            let mut again = out[0];
+            again.src = 1 - again.src;
+            out.push(again);
+        }
+        out
+    };
+    let mut n_prefix = 0u64;
+    {
+        let pool = &pool_out;
+        let n = pool.len();
+        for len in 2..=hl {
+            let mut idx = vec![0usize; len];
+            'outer2: loop {
+                if idx.windows(2).all(|p| p[0] < p[1]) {
+                    for kinds in 0..(1u32 << len) {
+                        for keysel in 0..3u32.pow(len as u32) {
+                            if (kinds * 5 + keysel) % (if args.thorough() { 2 } else { 7 }) != 0 { continue; }
+                            let mut ks = keysel;
+                            let h: Vec<Op> = (0..len).map(|i| {
+                                let k = keys[(ks % 3) as usize]; ks /= 3;
+                                Op { del: (kinds >> i) & 1 == 1, src: 0, key: k, t: pool[idx[i]] }
+                            }).collect();
+                            let n1 = h.iter().filter(|o| node_of(o.t) == 1).count();
+                            let n2 = h.iter().filter(|o| node_of(o.t) == 2).count();
+                            let mut cuts: Vec<[usize; 2]> = Vec::new();
+                            for c1 in 0..=n1 { for c2 in 0..=n2 { cuts.push([c1, c2]); } }
+                            for (ia, ca) in cuts.iter().enumerate() {
+                                for (ib, cb) in cuts.iter().enumerate() {
+                                    let cc = cuts[(ia * 3 + ib + 1) % cuts.len()];
+                                    let var = (ia + 2 * ib) as u32;
+                                    let a = prefix_replica(&h, ca, var, false);
+                                    let b = prefix_replica(&h, cb, var + 1, ia % 2 == 0);
+                                    let c = prefix_replica(&h, &cc, var + 2, false);
+                                    triple_case(w, &a, &b, &c, pool, &keys, true);
+                                    w.stats.hit("triple_gap_free_prefixes");
+                                    n_prefix += 1;
+                                }
+                            }
+                        }
+                    }
+                }
+                let mut p = len;
+                loop {
+                    if p == 0 { break 'outer2; }
+                    p -= 1;
+                    idx[p] += 1;
+                    if idx[p] < n { break; }
+                    idx[p] = 0;
+                }
+            }
+        }
+    }
+    let n_prefix_random = if args.thorough() { 10_000 } else { 1_000 };
+    for _ in 0..n_prefix_random {
+        let spread = *rng.pick(&[2 * W_TICKS, 5 * W_TICKS, 40 * W_TICKS]);
+        let keys8 = [1u64, 2, 3, 4, 5, 6, 7, 8];
+        let mut h: Vec<Op> = Vec::new();
+        for _ in 0..(3 + rng.below(14)) {
+            let t = mk(base + rng.below(spread), rng.below(2), 1 + rng.below(3));
+            if h.iter().any(|o| o.t == t) { continue; }
+            h.push(Op { del: rng.chance(2, 5), src: 0, key: *rng.pick(&keys8), t });
+        }
+        let mut mk_rep = |rng: &mut Rng| {
+            let cut = [rng.below(8) as usize, rng.below(8) as usize, rng.below(8) as usize];
+            let order = rng.below(3) as u32;
+            let dup = rng.chance(1, 3);
+            prefix_replica(&h, &cut, order, dup)
+        };
+        let (a, b, c) = (mk_rep(rng), mk_rep(rng), mk_rep(rng));
+        let probes: Vec<u64> = h.iter().map(|o| o.t).take(10).collect();
+        triple_case(w, &a, &b, &c, &probes, &keys8, true);
+        w.stats.hit("triple_gap_free_prefixes");
+        n_prefix += 1;
+    }
+    w.stats.add("prefix_triples", n_prefix);
     let n_random = if args.thorough() { 20_000 } else { 2_000 };
     for _ in 0..n_random {
         let spread = *rng.pick(&[60u64, W_TICKS - 1, 3 * W_TICKS]);
@@ -775,7 +881,8 @@ fn triple_case(w: &mut CaseWriter, a_ops: &[Op], b_ops: &[Op], c_ops: &[Op], pro
     let (a, b, c) = (build(a_ops), build(b_ops), build(c_ops));
     let m = |x: &S, y: &S| { let mut z = x.clone(); z.merge_(y); z };
     if within {
-        w.stats.hit("triple_within_period");
+        // (the flag says: one of the property's two premises holds for this triple)
+        w.stats.hit("triple_under_a_premise");
         let ab = m(&a, &b);
         let ba = m(&b, &a);
         if ab.contents() != ba.contents() { w.fail("merge-not-commutative", &case, &format!("{:?} vs {:?}", ab.contents(), ba.contents())); }
